@@ -1337,13 +1337,15 @@ class C09(Prop):
     id = "C09"
     module = "C09"
     theorems = ["C09_well_formed_fresh", "C09_well_formed", "C09_no_wire_form", "C09_fits", "C09_put_no_panic",
-                "C09_encode_no_panic_plain", "C09_build_no_panic_plain", "C09_number_plain"]
-    table_obligations = ["layouts_fit"]
+                "C09_encode_no_panic_plain", "C09_build_no_panic_plain", "C09_number_plain",
+                "C09_layouts_classified", "C09_encode_no_panic", "C09_build_total"]
+    table_obligations = ["layouts_fit", "layouts_classified"]
     partial_note = ("partial: frame shape (length 8..1029, 0xD3, six zero bits, length field, accepted by MessageFrame::new with the model's CRC-24Q) for every builder history, "
                     "refusal of messages without a wire form, size bound and the bit writer's freedom from panics are proved for every message; for the 55 plain layouts it is also proved "
-                    "that encoding a well-typed value (any float incl. NaN/inf, any integer of the Rust type, lists up to capacity, any text) and build_message never panic and that the "
-                    "frame carries the message's own number; for the MSM / SSR bias / 1230 / 1029 encoders freedom from panics and the number are covered by the ENCODE/BUILDSEQ "
-                    "correspondence in both build profiles and the probes")
+                    "that the frame carries the message's own number; freedom from panics of encoding and of build_message is proved for every message of the table (C09_build_total: "
+                    "plain layouts, MSM data segments with any identifiers / duplicates / inconsistent sets, SSR bias lists, 1230, 1029 text) in the model, which marks every overflow, "
+                    "out-of-range index, over-wide shift and push beyond capacity as Panic (the overflow-checks profile); that the optimised profile agrees, and the message number "
+                    "for the 53 non-plain layouts, are covered by the ENCODE/BUILDSEQ correspondence in both build profiles and the probes")
     rule = ("ENCODE in both profiles on generated messages of all types: per field boundary / out-of-range / NaN / +-inf / huge values, empty and full lists, MSM with inconsistent "
             "satellite/signal sets and 0..70 mask cells, bias lists with wrapping counts, the three variants without a wire form; frames checked with an independent CRC; "
             "non-trivial = distinct messages")
